@@ -14,8 +14,9 @@ CFG = {'streams': [{'name': 'C11',
  'explanation': 'Theorems (both interpreters, any program): cancellation at any k between 1 and the number of polls yields the bare Cancelled error; '
                 'a flag that does not fire leaves the result unchanged; a failing run fails with the same error or the bare cancellation; the '
                 'cancellation error is never wrapped in a context; a successful budgeted run made fewer than k polls.',
- 'partial': ['polls_cover_work (number of polls >= executed statements + attributes + scan iterations ...) is not proved as a theorem; the poll '
-             'sites of the model are tied to the code by comparing the full label trace of every run'],
+ 'partial': ['polls_cover_work is proved per unit of work ({strict,lazy}_polls_each_statement/_attribute/_scan_iteration, lazy_polls_each_match/'
+             '_deferred_statement/_deferred_value: every unit begins with a poll); it is not stated as one inequality over a whole run because the '
+             'number of executed units is not an observable; the poll sites of the model are tied to the code by comparing the full label trace of every run'],
  'assumptions': ['tree-sitter queries are an external: raw matches are recorded by calling QueryCursor::matches directly on the stanza queries and '
                  'on the merged file query',
                  'regex crate: modelled by Model/Regex.v on the generated sub-language (validated by stream C10rx); stdlib functions: Model/Stdlib.v '
